@@ -73,6 +73,10 @@ fn paths(q: bool) -> Vec<PathSpec> {
 const S: i32 = 8;
 
 fn one(run: &Run, shard: usize, l: &mut Local, sig: &str, a: Scene, b: Scene, sample: bool) {
+    one_tol(run, shard, l, sig, a, b, sample, 0)
+}
+
+fn one_tol(run: &Run, shard: usize, l: &mut Local, sig: &str, a: Scene, b: Scene, sample: bool, tol: u32) {
     l.states += 2;
     l.transitions += (a.ops.len() + b.ops.len()) as u64;
     l.traces += 1;
@@ -80,7 +84,7 @@ fn one(run: &Run, shard: usize, l: &mut Local, sig: &str, a: Scene, b: Scene, sa
     if sample {
         run.sample(format!("{} || {}", a, b));
     }
-    match diff_scenes(sig, &a, &b) {
+    match diff_scenes_tol(sig, &a, &b, tol) {
         Ok((h, changed)) => {
             l.outcome(h);
             if changed {
@@ -187,7 +191,8 @@ impl Check for C11 {
                     let a = Scene { w: S, h: S, dst: Dst::Distinct, ops: vec![Op::SetTransform(*xf), Op::Stroke(ps[pi].clone(), st.clone(), white.clone(), Opts::default())] };
                     let outline = spec_from_path(&stroke_to_path(&ps[pi].build(), &st.to()).transform(&xf_to(xf)));
                     let b = Scene { w: S, h: S, dst: Dst::Distinct, ops: vec![Op::Fill(outline, white.clone(), Opts::default())] };
-                    one(run, 1000 + pi, l, "stroke-under-T-vs-fill-of-transformed-outline", a, b, pi == 5 && ti == 4 && st.cap == 1);
+                    // strokes: "the image under T of the user-space stroke", not bit-identical
+                    one_tol(run, 1000 + pi, l, "stroke-under-T-vs-fill-of-transformed-outline", a, b, pi == 5 && ti == 4 && st.cap == 1, 17);
                 }
             }
         });
@@ -453,7 +458,8 @@ impl Check for C11 {
     fn replay(&self, case: &str) -> Result<Option<Violation>, String> {
         if case.contains("||") {
             let (a, b) = parse_scene_pair(case)?;
-            Ok(diff_scenes("replay", &a, &b).err())
+            let tol = if a.ops.iter().any(|o| matches!(o, Op::Stroke(..))) { 17 } else { 0 };
+            Ok(diff_scenes_tol("replay", &a, &b, tol).err())
         } else {
             let scene = parse_scene(case)?;
             // curved strokes under a scale
